@@ -1085,7 +1085,9 @@ static std::string handle(std::vector<std::string> &a)
     {
       bytes st = unhex(a[5]);
       st.resize(64);
-      r = h.cmphmac((u8_t)hm, place_key(k), fp, st.data()) ? "1" : "0";
+      // optional 6th field: the size the caller announces (documented as progress information; the file may have grown since)
+      size_t announced = a.size() > 6 ? strtoull(a[6].c_str(), NULL, 10) : 0;
+      r = h.cmphmac((u8_t)hm, place_key(k), fp, st.data(), announced) ? "1" : "0";
     }
     fclose(fp);
     unlink(p.c_str());
